@@ -415,4 +415,7 @@ def run(prog, rep, tier, snap):
     from ..rules import state
     rep.rule("R16.6", "the fillers and their helpers carry no state from one rule to the next", 1)
     rep.call(state.no_carried_state, prog, rep, "R16.6", "rrule")
+    from ..rules import encodings
+    rep.rule("R16.7", "the COUNT the reader stores is the COUNT that was written (no narrowing on the way into the rule)", 12)
+    rep.call(encodings.r05_4c, prog, rep, "R16.7")
 READY = True
